@@ -61,3 +61,30 @@ Theorem C18_paragraph_is_parse_inline :
           Ok ([set_children (i_inl s) (Some (join_children toks))], env)).
 Proof. exact paragraph_is_parse_inline. Qed.
 Print Assumptions C18_paragraph_is_parse_inline.
+
+(* ---- the heading context -------------------------------------------------------------------------- *)
+From MD Require Import Lemmas.HeadLine.
+
+(* For EVERY text t that starts with a letter, has no line end inside, no blank at either end and
+   does not end in '#' (the property's guard for ATX), every configuration whose block chain reaches
+   the heading rule before lheading / paragraph, every env: parse("# " t LF) is heading_open, inline,
+   heading_close, the inline token holds t and its children are exactly the children that
+   parseInline(t) gives its inline token - the block parser hands the inline parser the same string
+   in a heading as in inline mode (and as in a paragraph: C18_paragraph_is_parse_inline). *)
+Theorem C18_heading_is_parse_inline :
+  forall cfg rf cf lt t, head_ok t -> mem_z 13 t = false -> mem_z 0 t = false ->
+  forall pre post, c_rules (p_block cfg) = pre ++ nm_heading :: post ->
+    Forall (fun n => str_eqb n nm_heading = false /\ str_eqb n nm_paragraph = false /\ str_eqb n nm_lheading = false) pre ->
+    0 < c_maxNesting (p_block cfg) -> p_core cfg = [n_normalize; n_block; n_inline; n_text_join] ->
+  forall env,
+    parse cfg rf cf lt ((35 :: 32 :: t) ++ [10]) env
+    = (do toks <- inline_parse (p_inline cfg) rf cf lt t env [];
+       Ok ([h_open; set_children (h_inl t) (Some (join_children toks)); h_close], env))
+    /\ parse_inline cfg rf cf lt t env
+       = (do toks <- inline_parse (p_inline cfg) rf cf lt t env [];
+          Ok ([set_children (i_inl t) (Some (join_children toks))], env)).
+Proof. exact heading_is_parse_inline. Qed.
+Print Assumptions C18_heading_is_parse_inline.
+
+Example C18_heading_guard_satisfiable : head_ok [72; 105; 32; 42; 121; 111; 117; 42].
+Proof. exact head_ok_example. Qed.
